@@ -11,13 +11,24 @@
   * `c16_puback` / `c16_pubrec` / `c16_pubrel` / `c16_pubcomp`: in the state that awaits it, each
     acknowledgement is relayed once with the same message ID and moves the exchange on; in any
     other state (a duplicate after loss) it is ignored — so the broker sees each once.
-  That the client library runs the handler exactly once and survives loss on its side is decided by
-  the client / system suites; the monitor `Spec.c16` checks the retransmission rules on every
-  implementation trace.
+  The monitor `Spec.c16` checks the retransmission rules on every implementation trace.
+
+  CLIENT HALF (the client model, ALL states) — "the client's handler run exactly once":
+  * `c16_client_publish2_silent`: a QoS-2 PUBLISH — the first one or a retransmission — never
+    runs a handler;
+  * `c16_client_publish2_opens`: the first one opens an exchange under its message ID;
+  * `c16_client_pubrel_once`: the PUBREL of an open exchange runs the delivery once, answers with
+    PUBCOMP and forgets the exchange;
+  * `c16_client_pubrel_unknown_silent` / `c16_client_second_pubrel_silent`: a PUBREL for which no
+    exchange is open (a retransmission after the exchange ended) runs no handler (it is answered all
+    the same: `c17_pubrel_answered`).
+  The monitor `ClientSpec.c16` states the whole-session form (a QoS-2 handler run is covered by
+  exactly one PUBREL of an open exchange) on traces of the real client.
 -/
 import Bisquitt.Lemmas.GwSt
 import Bisquitt.Lemmas.GwEmits
 import Bisquitt.Spec.Gateway
+import Bisquitt.Props.C17
 
 namespace Bisquitt.Gw
 open Bisquitt Gw
@@ -104,3 +115,172 @@ theorem c16_pubcomp (g : Gw) (h : g.st = .active) (mid : UInt16) (t : Tx) (st : 
   simp [this, hl, hk]
 
 end Bisquitt.Gw
+
+namespace Bisquitt.Cl
+open Bisquitt Cl
+
+def isHandlerOut (o : Nat × Out) : Bool := match o.2 with | .handler .. => true | _ => false
+/-- the callback invocations so far -/
+def handlerOuts (c : Cl) : List (Nat × Out) := c.outs.filter isHandlerOut
+
+theorem handlerOuts_of_outs {c c' : Cl} (h : c'.outs = c.outs) : handlerOuts c' = handlerOuts c := by
+  unfold handlerOuts; rw [h]
+
+theorem emit_sn_handlerOuts (c : Cl) (b : Bytes) : handlerOuts (c.emit (.sn b)) = handlerOuts c := by
+  simp [handlerOuts, emit, isHandlerOut]
+
+theorem rxFail_outs (c : Cl) (e : Err) : (c.rxFail e).outs = c.outs := by
+  unfold rxFail cancelGroup; split <;> rfl
+
+theorem sendOrFail_handlerOuts (c : Cl) (p : Pkt) : handlerOuts (c.sendOrFail p) = handlerOuts c := by
+  by_cases h : c.connClosed = true
+  · simp only [sendOrFail, send, h, if_true, Bool.false_eq_true, if_false]
+    exact handlerOuts_of_outs (rxFail_outs c _)
+  · simp only [sendOrFail, send, h, if_false, if_true]
+    exact emit_sn_handlerOuts c _
+
+theorem setTx_outs (c : Cl) (t : Tx) : (c.setTx t).outs = c.outs := rfl
+
+/-- **C16 (client).** A QoS-2 PUBLISH, first or retransmitted, runs no handler. -/
+theorem c16_client_publish2_silent (c : Cl) (dup retain : Bool) (tit : UInt8) (tid mid : UInt16) (data : Bytes) :
+    handlerOuts (c.handlePacket (.publish dup 2 retain tit tid mid data)) = handlerOuts c := by
+  unfold handlePacket
+  simp only [if_true]
+  cases hl : c.byIdB.lookup mid with
+  | some id =>
+    simp only
+    split
+    · split
+      · rw [sendOrFail_handlerOuts]; exact handlerOuts_of_outs rfl
+      · rfl
+    · rfl
+  | none =>
+    simp only
+    split
+    · split
+      · rw [sendOrFail_handlerOuts]; exact handlerOuts_of_outs rfl
+      · exact handlerOuts_of_outs (by simp [store, newTx])
+    · exact handlerOuts_of_outs (by simp [store, newTx])
+
+theorem getTx_id {c : Cl} {id : Nat} {t : Tx} (h : c.getTx id = some t) : t.id = id := by
+  unfold getTx at h
+  have := List.find?_some h
+  simpa using this
+
+theorem lookupByIdB_spec {c : Cl} {mid : UInt16} {t : Tx} (h : c.lookupByIdB mid = some t) :
+    c.byIdB.lookup mid = some t.id ∧ c.getTx t.id = some t := by
+  unfold lookupByIdB at h
+  cases hl : c.byIdB.lookup mid with
+  | none => simp [hl] at h
+  | some id =>
+    simp only [hl, Option.bind_some] at h
+    have := getTx_id h
+    subst this
+    exact ⟨rfl, h⟩
+
+theorem lookup_filter_ne {β} (l : List (UInt16 × β)) (m : UInt16) : (l.filter (·.1 != m)).lookup m = none := by
+  simp
+  intro a b _ h e
+  exact h e.symm
+
+theorem find_none_map {α} (l : List α) (p : α → Bool) (v : α) (h : l.find? p = none) :
+    l.map (fun x => if p x then v else x) = l := by
+  have h' := List.find?_eq_none.mp h
+  conv => rhs; rw [← List.map_id l]
+  apply List.map_congr_left
+  intro a ha
+  simp [h' a ha]
+
+/-- **C16 (client).** The first QoS-2 PUBLISH of a message ID opens an exchange under that ID
+    (and is answered with PUBREC). -/
+theorem c16_client_publish2_opens (c : Cl) (dup retain : Bool) (tit : UInt8) (tid mid : UInt16) (data : Bytes)
+    (hnew : c.byIdB.lookup mid = none) (hfresh : c.getTx c.nextTx = none) (ho : c.connClosed = false) :
+    let c' := c.handlePacket (.publish dup 2 retain tit tid mid data)
+    ∃ t, c'.lookupByIdB mid = some t ∧ t.kind = .brokerPub2 (.publish dup 2 retain tit tid mid data) ∧
+      t.key = .byIdB mid ∧ t.done = false ∧
+      c'.outs = (c.now, Out.sn (encode (.pubrec mid))) :: c.outs := by
+  unfold getTx at hfresh
+  have hmap := find_none_map c.txs (·.id == c.nextTx)
+    { id := c.nextTx, kind := .brokerPub2 (.publish dup 2 retain tit tid mid data), key := .byIdB mid } hfresh
+  simp only [handlePacket, if_true, hnew, newTx, store, getTx, List.find?_append, hfresh, Option.none_or,
+    List.find?_cons, beq_self_eq_true, setTx]
+  refine ⟨{ id := c.nextTx, kind := .brokerPub2 (.publish dup 2 retain tit tid mid data), key := .byIdB mid }, ?_, rfl, rfl, rfl, ?_⟩
+  · simp only [sendOrFail, send, ho, emit, lookupByIdB, getTx, List.map_append, hmap, Bool.false_eq_true, if_false, if_true,
+      List.lookup_cons, beq_self_eq_true, Option.bind_some, List.find?_append, hfresh, Option.none_or, List.map_cons,
+      List.map_nil, List.find?_cons]
+  · simp [sendOrFail, send, ho, emit]
+
+/-- **C16 (client).** The PUBREL of an open exchange: the message is delivered (one callback
+    invocation at most, none if no subscription matches), PUBCOMP is sent, the exchange is forgotten. -/
+theorem c16_client_pubrel_once (c : Cl) (mid : UInt16) (t : Tx) (dup r : Bool) (q tit : UInt8) (tid m : UInt16)
+    (data topic : Bytes)
+    (hl : c.lookupByIdB mid = some t) (hk : t.kind = .brokerPub2 (.publish dup q r tit tid m data))
+    (hkey : t.key = .byIdB mid) (hd : t.done = false) (htopic : c.topicFor tit tid = some topic)
+    (ho : c.connClosed = false) :
+    let c' := c.handlePacket (.pubrel mid)
+    handlerOuts c' = handlerOuts (c.deliver topic q r data) ∧
+    (handlerOuts c').length ≤ (handlerOuts c).length + 1 ∧
+    c'.lookupByIdB mid = none := by
+  obtain ⟨hlk, hget⟩ := lookupByIdB_spec hl
+  have hdel : ∀ x : Cl, x = c.deliver topic q r data →
+      x.txs = c.txs ∧ x.byIdB = c.byIdB ∧ x.connClosed = c.connClosed := by
+    intro x hx; subst hx; unfold deliver; simp only; split <;> exact ⟨rfl, rfl, rfl⟩
+  obtain ⟨hdt, hdb, hdc⟩ := hdel _ rfl
+  simp only [handlePacket, hl, hk, htopic, send, hdc, ho, Bool.false_eq_true, if_false, if_true]
+  have hget' : ((c.deliver topic q r data).emit (.sn (encode (.pubcomp mid)))).getTx t.id = some t := by
+    unfold getTx emit; simp only [hdt]; exact hget
+  refine ⟨?_, ?_, ?_⟩
+  · rw [handlerOuts_of_outs (finishTx_outs _ _ _)]
+    exact emit_sn_handlerOuts _ _
+  · rw [handlerOuts_of_outs (finishTx_outs _ _ _), emit_sn_handlerOuts]
+    unfold deliver; simp only
+    split
+    · omega
+    · simp only [handlerOuts, emit, List.filter_cons]
+      split <;> simp
+  · unfold finishTx
+    simp only [hget', hd, Bool.false_eq_true, if_false]
+    unfold runFinally
+    simp only [hkey]
+    have : ((c.deliver topic q r data).emit (.sn (encode (.pubcomp mid)))).byIdB = c.byIdB := by
+      unfold emit; exact hdb
+    simp only [setTx, this, hlk, if_true]
+    unfold lookupByIdB
+    simp only [lookup_filter_ne, Option.bind_none]
+
+/-- **C16 (client).** A PUBREL for which no exchange is open (a retransmission after the end of
+    the exchange) runs no handler. -/
+theorem c16_client_pubrel_unknown_silent (c : Cl) (mid : UInt16) (hl : c.lookupByIdB mid = none) :
+    handlerOuts (c.handlePacket (.pubrel mid)) = handlerOuts c := by
+  simp only [handlePacket, hl]
+  exact sendOrFail_handlerOuts c _
+
+/-- **C16 (client).** Exactly once: after the PUBREL of an open exchange, a retransmitted PUBREL
+    of the same message ID runs no handler any more. -/
+theorem c16_client_second_pubrel_silent (c : Cl) (mid : UInt16) (t : Tx) (dup r : Bool) (q tit : UInt8) (tid m : UInt16)
+    (data topic : Bytes)
+    (hl : c.lookupByIdB mid = some t) (hk : t.kind = .brokerPub2 (.publish dup q r tit tid m data))
+    (hkey : t.key = .byIdB mid) (hd : t.done = false) (htopic : c.topicFor tit tid = some topic)
+    (ho : c.connClosed = false) :
+    handlerOuts ((c.handlePacket (.pubrel mid)).handlePacket (.pubrel mid)) = handlerOuts (c.handlePacket (.pubrel mid)) :=
+  c16_client_pubrel_unknown_silent _ mid (c16_client_pubrel_once c mid t dup r q tit tid m data topic hl hk hkey hd htopic ho).2.2
+
+/-! Non-vacuity: a concrete client with one subscription receives a QoS-2 PUBLISH twice (a
+    retransmission) and the PUBREL twice: the hypotheses of `c16_client_pubrel_once` are met after
+    the PUBLISH, and the callback runs exactly once. -/
+def c16Client0 : Cl :=
+  { cfg := { cid := [0x63], user := none, pass := [], ka := 0, ct := 1000, rd := 1000, rc := 2, clean := true,
+             will := none, predef := [] },
+    st := .active, handlers := [([0x61, 0x62], [0x61, 0x62])] }
+def c16Pub2 : Pkt := .publish false 2 false Gen.TIT_SHORT 0x6162 7 [1, 2, 3]
+
+example : ((c16Client0.handlePacket c16Pub2).lookupByIdB 7).map (fun t => (t.kind, t.key, t.done)) =
+    some (.brokerPub2 c16Pub2, .byIdB 7, false) ∧
+    (c16Client0.handlePacket c16Pub2).topicFor Gen.TIT_SHORT 0x6162 = some [0x61, 0x62] ∧
+    (c16Client0.handlePacket c16Pub2).connClosed = false := by decide
+example : (handlerOuts (c16Client0.handlePacket c16Pub2)).length = 0 ∧
+    (handlerOuts (((c16Client0.handlePacket c16Pub2).handlePacket c16Pub2).handlePacket (.pubrel 7))).length = 1 ∧
+    (handlerOuts ((((c16Client0.handlePacket c16Pub2).handlePacket c16Pub2).handlePacket (.pubrel 7)).handlePacket
+      (.pubrel 7))).length = 1 := by decide
+
+end Bisquitt.Cl
